@@ -684,6 +684,9 @@ def cacheGetReader : List String :=
   ["mutex.Lock", "defer:mutex.Unlock", "cache.Get", "entry.retain", "newMMapStoreReaderFunc", "entry.retain", "cache.Add"]
 /-- `storeCache.Cleanup` closes only entries with `ref == 0` (and expired) -/
 def cacheCleanupGuard : List String := ["ref-zero", "expired"]
+/-- `LRUCache.Walk` (what `lruWalk` of Model/TableCache.lean mirrors): inspect the BACK of the list,
+remove while the callback accepts, stop (`break`) at the first entry it rejects -/
+def lruWalkShape : List String := ["for", "evictList.Back", "fn", "c.removeElement", "break"]
 /-- the counters `Act.env` moves are the store's, not the family's -/
 def sharedCounters : List String := ["storeVersionSet.nextFileNumber", "storeVersionSet.versionID"]
 def newVersionID : List String := ["versionID.Add"]
